@@ -47,7 +47,14 @@ K(v) == (v.st.x * v.st.y) \div v.cfg.D
 SafeVamm(v) == /\ v.st.x >= 1 /\ v.st.y >= 1 /\ v.st.x <= 5000000 /\ v.st.y <= 5000000
                /\ v.st.x <= MaxInt \div v.st.y
                /\ \A i \in 1..Len(v.snaps) : v.snaps[i].x <= 5000000 /\ v.snaps[i].y <= 5000000
-SafeWorld(W) == \A v \in DOMAIN W.vamm : SafeVamm(W.vamm[v])
+\* ... and so is a state holding a position whose amounts or funding product leave that range
+SafePos(W, v, p) == /\ Abs(p.size) <= 5000000 /\ p.notional <= AmtCap /\ p.margin <= 5000000
+                    /\ MulOK(Cpf(W, v) - p.lupf, p.size)
+                    /\ p.size # 0 => LET n == OutputPrice(W.vamm[v].cfg.D, p.dir, Abs(p.size), W.vamm[v].st.x, W.vamm[v].st.y)
+                                     IN n # OVER /\ n <= AmtCap
+SafeWorld(W) == /\ \A v \in DOMAIN W.vamm : SafeVamm(W.vamm[v])
+                /\ \A v \in DOMAIN W.eng.pos : \A t \in DOMAIN W.eng.pos[v] :
+                      W.eng.pos[v][t].exists => SafePos(W, v, W.eng.pos[v][t])
 PosOf(W, v, t) == W.eng.pos[v][t]
 Held(p) == p.exists /\ p.size # 0
 EngineVamm(W, v) == W.vamm[v].cfg.engine = "engine"
